@@ -36,6 +36,14 @@ checks["C18"] = dict(
    text="Proof over a ghost event trace that recursiveVisit(req, i) (and RoundTrip = recursiveVisit(req, 0)) invokes the registered interceptors i, i+1, ... exactly once each, in list order, with the same request pointer, stops after the first one that returns an error (returning (nil, that error) and never reaching the transport), and otherwise ends with exactly one call of the wrapped transport with that request whose error result it returns - for every list length and every position of the failing interceptor (recursive contract; callee used by contract). SetHTTPClient re-establishes the object invariant (client.Transport == self, lastTransport == self, wrapped transport non-nil and not self) for any client and is idempotent on an already wrapped client; AddInterceptor grows the list by exactly the given interceptors through the persistent Stream.Append and - by the frame obligations - never writes existing storage; Clear empties the list; Remove/Add/Clear leave the transport fields alone.",
    note="Trusted: http.Client.Do invokes client.Transport.RoundTrip once per request (no redirects); interceptors do not edit the interceptor list while running; interceptor pointers in the list and the interceptors they point to are non-nil (precondition); http.DefaultTransport is non-nil and not this object. NOT proved: the element-level result of AddInterceptor (only its length, frame and field preservation) and of RemoveInterceptor (only shrink + frame); DoRequest/Do* wrappers. Trace model of callbacks: one synchronous call event per invocation.",
    ref="5 C18")
+checks["C11"] = dict(
+   text="Proof over a ghost event trace (one event per invocation of a user function value, per Post to a handler) that building or composing a MonadIO (Just, New, FlatMap, SubscribeOn, ObserveOn) adds no event - no user function runs - and records exactly the given effect/handlers (ObserveOn/SubscribeOn keep the other handler and the effect, whether they mutate or copy); that each run of FlatMap's composed effect is: the receiver's effect once, then the bind function once on its value, then the resulting MonadIO's effect once, returning that value (verified as a closure unit for arbitrary captured state, so also on the second and later evaluations); that Eval is exactly one call of the effect whose value it returns; that doSubscribe/Subscribe do nothing without OnNext, otherwise run effect then OnNext(value) inline, or make exactly one Post of the observing closure to the observe handler - and that closure (own unit) runs the effect once and then either calls the delivering closure or Posts it to the subscribe handler; the delivering closure calls OnNext once with the produced value.",
+   note="Trusted: Handler.Post runs a posted function exactly once on the handler goroutine (C12's per-goroutine facts + channel axioms); user functions given to FlatMap return a non-nil MonadIO with an effect; handlers are open; callbacks are modelled as one event each (what they do internally is not traced). The monad laws and 'any composition depth' follow by structural induction from FlatMap's closure contract (callee used by contract); that induction is not machine-checked. Goroutine identity ('on h1's goroutine') is represented by 'only via Post to h1'.",
+   ref="5 C11")
+checks["C12"] = dict(
+   text="Proof of the per-goroutine facts from which the mailbox statement follows: NewByCh / ActorNewByOptionsGenerics start exactly one consumer goroutine for the given channel; the consumer loops (Handler.run, Actor.run) perform, for the k messages received so far, exactly k synchronous calls, of exactly those functions (resp. of the actor's effect with the actor itself as first argument), in receive order, and nothing else (a `go` in the body is a different event kind and fails the invariant); Post/Send on an open object is exactly one channel send of exactly that value and on a closed object does nothing; Close sets the flag and closes the channel once; Spawn returns a fresh independent actor (own channel, own consumer) registered under an open parent (parent pointer and children map) and unregistered under a closed one; GetParent/GetChild/IsClosed read those fields.",
+   note="NOT explored: goroutine schedules. The step from these facts to 'each submitted item processed exactly once, never two at a time, in each sender's order' uses the trusted channel axioms (FIFO, each value received exactly once, single consumer) and is a pen-and-paper composition (DESIGN.md 5-C12). Assumed: nobody posts a nil function; ids from time.Now() are distinct; channel fields are non-nil when closed. The send/close races at shutdown belong to C15 (not claimed).",
+   ref="5 C12")
 na = {
  "C07": "quantifies over producer/consumer/loader interleavings and includes liveness (nothing stranded, wake-ups not lost); no per-function contract expresses cross-goroutine exactly-once hand-over or eventual loading (DESIGN.md 6).",
  "C09": "every clause is about goroutine scheduling, timers and recovery from panics in other goroutines; the named defect is a lost wake-up (liveness under a fault) (DESIGN.md 6).",
